@@ -9,7 +9,7 @@
     [st_supply] is the model's bank supply (mint / burn), [st_win] the ghost "incoming amount
     completed since the last window reset".  Asset parameters do not change inside a history
     (there is no parameter-update operation; [reachable_invariant] states [st_params] stays [P]). *)
-From Irismod Require Import Htlc.Model Htlc.Proofs Htlc.Examples Htlc.Check Htlc.Sound.
+From Irismod Require Import Htlc.Model Htlc.Proofs Htlc.Examples Htlc.Check Htlc.Sound Htlc.Passes Htlc.PassesEx Htlc.ParamChange.
 
 (** ** Inv_C04 holds in every reachable state (induction over the history: [Inv] holds at
     genesis and is preserved by every message and every block boundary) *)
@@ -80,15 +80,34 @@ Theorem window_counts_completed_incoming :
 Proof. exact claim_htlt_win. Qed.
 Print Assumptions window_counts_completed_incoming.
 
-(** ** the hypothesis "the recipient is not the escrow account" is needed: a contract paid out to
-    the module account itself (accepted by the code: the htlc account is not a blocked address in
-    the application's configuration) is a donation to escrow, after which escrow exceeds the open
-    contracts.  [escrow_eq_open] is therefore stated for histories without such contracts. *)
-Example escrow_eq_open_needs_recipient_not_escrow :
-  let ops := [Create (mkCreate 0 ESC [(4, 100)] (7, ts0) ts0 50 false); Claim 1 ((7, ts0), 0, ESC, [(4, 100)]) 7] in
-  let s := reachable exP exB (ts0 * ns) ops in
-  bal (st_bank s) ESC 4 = 100 /\ wsum (w_esc 4) (st_contracts s) = 0.
-Proof. vm_compute. split; reflexivity. Qed.
+(** ** the pinned code violated [escrow_eq_open]: it accepted a contract whose recipient is the htlc
+    module account itself (an ordinary message: that account is not a blocked address); once claimed
+    its coins stay in - or, for an incoming transfer, are minted into - escrow for ever, so escrow
+    exceeded the open contracts (found by the check: corpus/C04/07-recipient-is-the-htlc-module-account.jsonl).
+    Fixed in the repository ("fix: htlc CreateHTLC rejects a recipient equal to the htlc module account");
+    the model follows the fixed code, and the theorems above carry no hypothesis on recipients.
+    The refuted statement, for the record, on the pinned behaviour ([create_pinned] in Htlc/Examples.v =
+    [create] for ordinary contracts without the new test): *)
+Theorem escrow_eq_open_refuted_on_pinned_code :
+  exists (s : state) (m : create_msg) (s1 : state) (who secret : Z),
+    Inv s /\ m_transfer m = false /\ m_sender m <> ESC /\ m_sender m <> BLK
+    /\ create_pinned s m = Some s1
+    /\ step_ok s1 (Claim who (id_of m) secret) = true
+    /\ bal (st_bank (step s1 (Claim who (id_of m) secret))) ESC 4
+        <> wsum (w_esc 4) (st_contracts (step s1 (Claim who (id_of m) secret))).
+Proof.
+  exists (init exP exB (ts0 * ns)), (mkCreate 0 ESC [(4, 100)] (7, ts0) ts0 50 false).
+  eexists. exists 1, 7.
+  split; [exact (proj1 (init_inv exP exB (ts0 * ns) ltac:(repeat constructor; simpl; lia) ltac:(intros d; reflexivity)))|].
+  split; [reflexivity|]. split; [discriminate|]. split; [discriminate|].
+  split; [vm_compute; reflexivity|]. split; [vm_compute; reflexivity|]. vm_compute. discriminate.
+Qed.
+Print Assumptions escrow_eq_open_refuted_on_pinned_code.
+
+(** and the fixed code (= the model) rejects the message *)
+Example recipient_escrow_rejected :
+  step_ok (init exP exB (ts0 * ns)) (Create (mkCreate 0 ESC [(4, 100)] (7, ts0) ts0 50 false)) = false.
+Proof. vm_compute. reflexivity. Qed.
 
 (** ** What the check evaluates lies inside these theorems: for every case accepted by the decidable
     guard [hyps_b] (evaluated by [vm_compute] on every case; a case outside it fails the check), the
@@ -100,6 +119,78 @@ Theorem c04_checked_states_satisfy_invariant :
     /\ st_params (case_state k n) = k_params k.
 Proof. exact checked_states_satisfy_invariant. Qed.
 Print Assumptions c04_checked_states_satisfy_invariant.
+
+(** ** Asset-parameter changes.  The model's operation [SetParams who P'] (MsgUpdateParams: accepted iff
+    [who] is the authority and [P'] passes the validation of types/params.go) applies [set_params]; the
+    correspondence check exercises it in a third of the generated histories, with valid and invalid
+    sets, limit cuts below the usage, period / flag / deputy / fee / bound changes.  The theorems over
+    histories ([wf_op]) and the property monitors are about histories WITHOUT parameter changes (the
+    monitors stop at the first one of a case); what survives a change is stated here (Htlc/ParamChange.v).
+    inv_C04_after_param_change: whatever the new values (limits, time-based limit, period, active flag,
+    deputy, fixed fee, swap bounds, lock bounds), as long as the supported denoms stay the same, the
+    counters still equal the sums, escrow still equals the open contracts, bank supply = current,
+    outgoing <= current, and the queue / log clauses hold ([InvCore]). *)
+Theorem inv_C04_after_param_change :
+  forall s P', InvCore s -> same_denoms (st_params s) P' -> InvCore (set_params s P').
+Proof. exact inv_core_after_param_change_lemma. Qed.
+Print Assumptions inv_C04_after_param_change.
+
+Theorem inv_core_of_invariant : forall s, Inv s -> InvCore s.
+Proof. exact inv_core_of_inv. Qed.
+Print Assumptions inv_core_of_invariant.
+
+(** the limit inequalities survive a change whose new limits cover the current usage ([covers]; e.g.
+    limits only raised: [raise_covers]); then the whole invariant holds again, for every history after it *)
+Theorem inv_C04_after_compatible_param_change :
+  forall s P' ops, Inv s -> Strict s -> same_denoms (st_params s) P' -> covers s P' -> Forall wf_op ops ->
+    Inv (run (set_params s P') ops) /\ Strict (run (set_params s P') ops) /\ st_params (run (set_params s P') ops) = P'.
+Proof. exact run_after_compatible_param_change. Qed.
+Print Assumptions inv_C04_after_compatible_param_change.
+
+Theorem raising_limits_is_compatible :
+  forall s P', Inv s ->
+    (forall d p p', get_param (st_params s) d = Some p -> get_param P' d = Some p' ->
+       ap_limit p <= ap_limit p' /\ ap_tl p' = ap_tl p /\ ap_tbl p <= ap_tbl p') ->
+    same_denoms (st_params s) P' -> covers s P'.
+Proof. exact raise_covers. Qed.
+Print Assumptions raising_limits_is_compatible.
+
+(** ... and they do NOT survive an arbitrary change: after a limit cut below current + incoming the
+    claim of an open incoming transfer with the right secret is rejected (so [limits_respected] and
+    [claim_iff_preimage] are statements about histories with unchanged parameters, as C04 says),
+    while the counters still equal the sums. *)
+Theorem claim_may_fail_after_limit_cut :
+  let s := run (init exP exB (ts0 * ns)) [Create (mkCreate 3 0 [(0, 200)] (8, ts0) ts0 50 true)] in
+  Inv s /\ same_denoms (st_params s) exCut
+  /\ (exists c, get id2 (st_contracts s) = Some c /\ c_state c = Open /\ secret_ok c 8 = true)
+  /\ step_ok s (Claim 0 id2 8) = true
+  /\ step_ok (set_params s exCut) (Claim 0 id2 8) = false
+  /\ InvCore (set_params s exCut).
+Proof. exact claim_may_fail_after_limit_cut_lemma. Qed.
+Print Assumptions claim_may_fail_after_limit_cut.
+
+(** ** model_passes_check: the checker, fed the MODEL's own observations, answers (-1, -1, 0) for both
+    properties.  [Vw k nd s code o] says that the observation [o] is the projection of the model state
+    [s] (contracts by table position, queue, balance sheet of the case's accounts over [nd] denoms, asset
+    supplies, bank supplies, clock) with result code [code]; [trace_ok] says that every step's diff
+    decodes to the projection of the model's next state; [table_ok]: the id table has no duplicates, at
+    most 100 actors, distinct asset denoms, parties of the table's ids inside the universe and no
+    negative denoms.  Consequence: on code that agrees with the model the check can not raise an alarm,
+    and the clauses of [p03] / [p04] are consequences of the invariant. *)
+Theorem c04_model_passes_check :
+  forall (k : case) (nd : nat),
+    hyps_b k = true -> table_ok k ->
+    Vw k nd (case_init k) 0 (k_obs0 k) ->
+    trace_ok k nd (case_init k) (k_obs0 k) (k_steps k) ->
+    check_case_C03 k = (-1, -1, 0) /\ check_case_C04 k = (-1, -1, 0).
+Proof. exact model_passes_check_lemma. Qed.
+Print Assumptions c04_model_passes_check.
+
+(** its hypotheses hold of a concrete case built from the model's run of the example history *)
+Example c04_model_passes_check_nonvacuous :
+  hyps_b exCase = true /\ table_ok exCase /\ Vw exCase 5 (case_init exCase) 0 (k_obs0 exCase)
+  /\ trace_ok exCase 5 (case_init exCase) (k_obs0 exCase) (k_steps exCase) /\ length (k_steps exCase) = 13%nat.
+Proof. split; [exact exCase_hyps|]. split; [exact exCase_table|]. split; [exact exCase_init_view|]. split; [exact exCase_trace|reflexivity]. Qed.
 
 (** ** Non-vacuity: the concrete history of [Htlc/Examples.v] satisfies the hypotheses and reaches
     non-trivial values of every counter (an incoming transfer of 200 is pending, then completed;
